@@ -13,17 +13,17 @@ demo=$out/demo${k}_test.go.txt
 dest=$(head -3 $demo | grep -o 'copy to: *[^ ]*' | sed 's/copy to: *//')
 [ -z "$dest" ] && { echo "$res NO-DEST"; git -C /repo worktree remove --force $W; rm -rf $V; exit 3; }
 pkg=./$(dirname $dest)
-tname=$(grep -o 'func Test[A-Za-z0-9_]*' $demo | head -1 | sed 's/func //')
+tname=$(grep -o 'func Test[A-Za-z0-9_]*' $demo | sed 's/func //' | paste -sd'|')  # every test of the demo file (some demos re-exec a child test)
 # (d) demo passes without the change
 cp $demo $W/$dest
-(cd $W && go test -count=1 -run "^${tname}\$" $pkg > $V/d.log 2>&1); d=$?
+(cd $W && go test -count=1 -run "^(${tname})\$" $pkg > $V/d.log 2>&1); d=$?
 rm $W/$dest
 # apply
 if ! git -C $W apply $out/change$k.diff 2> $V/apply.log; then echo "$res APPLY-FAILED $(head -2 $V/apply.log)"; git -C /repo worktree remove --force $W; rm -rf $V; exit 3; fi
 (cd $W && go build ./... > $V/b.log 2>&1); b=$?
 /verif/tools/repotest.sh $W > $V/s.log 2>&1; s=$?
 cp $demo $W/$dest
-(cd $W && go test -count=1 -run "^${tname}\$" $pkg > $V/c.log 2>&1); c=$?
+(cd $W && go test -count=1 -run "^(${tname})\$" $pkg > $V/c.log 2>&1); c=$?
 rm $W/$dest
 res="$res build=$b suite=$s demo_without=$d demo_with=$c"
 caught=""
